@@ -41,6 +41,8 @@ def gen_cases(tier, seed):
         case["y0"] = "rand" if rng.random() < 0.4 else "none"
         if rng.random() < 0.1:
             case["x0"] = "none"
+        elif rng.random() < 0.15:
+            case["x0_out"] = True   # a start that violates some variable bounds (runs that end before any step is accepted)
         if rng.random() < 0.2:
             # a step-size policy that answers accepted steps with extreme inverse step sizes: the model clock first
             # becomes huge, later steps are tiny compared with it (down to t + dt == t)
@@ -98,6 +100,7 @@ def run_case(case):
                        "paths_checked": stats.get("paths_checked", 0)})
     res["ctr"]["penalty_" + p.cfg["penalty"]] = 1
     res["ctr"]["runs_with_caller_reusing_start_buffers"] = int(cb is not None)
+    res["ctr"]["out_of_bounds_starts_without_accepted_step"] = int(bool(case.get("x0_out")) and stats["effective_accepts"] == 0)
     if script is not None and out.result.model_times is not None:
         mt = np.asarray(out.result.model_times, dtype=float)
         res["ctr"]["runs_with_scripted_step_sizes"] = 1
@@ -118,7 +121,7 @@ def finalize(agg, tier):
                 "the solve computed at least two trial steps; distinct by spec seed",
         "floors": {"results_checked": 500, "vetoed_trials": 50, "rejected_trials": 200, "paths_checked": 300,
                    "effective_accepts": 3000, "runs_with_caller_reusing_start_buffers": 100,
-                   "runs_with_scripted_step_sizes": 60, "runs_with_absorbed_model_time": 10},
+                   "runs_with_scripted_step_sizes": 60, "out_of_bounds_starts_without_accepted_step": 8, "runs_with_absorbed_model_time": 10},
         "assumptions": ["effective acceptance = controller accepted and (no penalty decision or penalty accepted), taken "
                         "from the penalty proxy and object identities, never from value equality"],
     }
